@@ -397,6 +397,23 @@ macro_rules! full_set {
                     }
                     // search: key from seed; messages i (4 bytes LE) for i < n, signed deterministically; returns the first
                     // message whose signature carries exactly `target` hints (last counter byte), with pk and signature
+                    // search: first message i < n (4 bytes LE, deterministic signing under the key from `seed`) whose signature has a
+                    // polynomial WITHOUT any hint (two equal consecutive counters, or a first counter of 0)
+                    "hint_empty_row_search" => {
+                        let n = int(&a[1]) as u32;
+                        let mut pk = vec![0u8; par::PUBLICKEYBYTES]; let mut sk = vec![0u8; par::SECRETKEYBYTES];
+                        sg_::keypair(&mut pk, &mut sk, Some(bytes(&a[0])));
+                        let mut sig = vec![0u8; par::SIGNBYTES];
+                        let mut found: i64 = -1;
+                        let cnt0 = par::SIGNBYTES - vl::K;
+                        for i in 0..n {
+                            sg_::signature(&mut sig, &i.to_le_bytes(), &sk, false);
+                            let mut prev = 0u8; let mut empty = false;
+                            for r in 0..vl::K { let c = sig[cnt0 + r]; if c == prev { empty = true; } prev = c; }
+                            if empty { found = i as i64; break; }
+                        }
+                        vec![oint(found), obytes(&pk), obytes(&sig)]
+                    }
                     "hint_weight_search" => {
                         let n = int(&a[1]) as u32; let target = int(&a[2]) as u8;
                         let mut pk = vec![0u8; par::PUBLICKEYBYTES]; let mut sk = vec![0u8; par::SECRETKEYBYTES];
@@ -418,6 +435,30 @@ macro_rules! full_set {
                         let mut pk = bytes(&a[0]).to_vec(); let mut sk = bytes(&a[1]).to_vec();
                         sg_::keypair(&mut pk, &mut sk, Some(bytes(&a[2])));
                         vec![obytes(&pk), obytes(&sk)]
+                    }
+                    // corpus search (run offline on the unmodified crate): seeds seed0+i whose t = A*s1 + s2 has a coefficient equal to
+                    // `target` (0 or q-1), read back from the generated key as t1*2^13 + t0; returns the first such index or -1
+                    "t_value_search" => {
+                        let n = int(&a[1]) as u64; let target = int(&a[2]) as i64;
+                        let base = bytes(&a[0]).to_vec();
+                        let mut found: i64 = -1; let mut fseed: Vec<u8> = vec![];
+                        for i in 0..n {
+                            let mut seed = base.clone();
+                            seed[..8].copy_from_slice(&i.to_le_bytes());
+                            let mut pk = vec![0u8; par::PUBLICKEYBYTES]; let mut sk = vec![0u8; par::SECRETKEYBYTES];
+                            sg_::keypair(&mut pk, &mut sk, Some(&seed));
+                            let mut rho = [0u8; 32]; let mut t1 = vl::nk();
+                            pk_::unpack_pk(&mut rho, &mut t1, &pk);
+                            let mut tr = [0u8; $trbytes]; let mut key = [0u8; 32];
+                            let (mut t0, mut s1, mut s2) = (vl::nk(), vl::nl(), vl::nk());
+                            pk_::unpack_sk(&mut rho, &mut tr, &mut key, &mut t0, &mut s1, &mut s2, &sk);
+                            let mut hit = false;
+                            for r in 0..vl::K { for c in 0..256 {
+                                if (t1.vec[r].coeffs[c] as i64) * 8192 + (t0.vec[r].coeffs[c] as i64) == target { hit = true; }
+                            } }
+                            if hit { found = i as i64; fseed = seed; break; }
+                        }
+                        vec![oint(found), obytes(&fseed)]
                     }
                     "keypair_digest" => {
                         let mut pk = vec![0u8; par::PUBLICKEYBYTES]; let mut sk = vec![0u8; par::SECRETKEYBYTES];
@@ -565,6 +606,39 @@ macro_rules! full_set {
                         let mut bad = 0i64;
                         for h in hs { bad += h.join().unwrap(); }
                         vec![oint((threads * iters) as i64), oint(bad)]
+                    }
+                    // schedule probe for signing: reference signatures of `iters` messages computed on one thread, then `threads`
+                    // barrier-started threads re-sign all of them deterministically; every result must equal the reference
+                    "sign_race" => {
+                        let threads = int(&a[0]) as usize; let iters = int(&a[1]) as usize;
+                        let mut pk = vec![0u8; par::PUBLICKEYBYTES]; let mut sk = vec![0u8; par::SECRETKEYBYTES];
+                        sg_::keypair(&mut pk, &mut sk, Some(bytes(&a[2])));
+                        let mut refs = Vec::new();
+                        for i in 0..iters {
+                            let mut sig = vec![0u8; par::SIGNBYTES];
+                            sg_::signature(&mut sig, &(i as u32).to_le_bytes(), &sk, false);
+                            refs.push(sig);
+                        }
+                        let (sk, refs) = (std::sync::Arc::new(sk), std::sync::Arc::new(refs));
+                        let barrier = std::sync::Arc::new(std::sync::Barrier::new(threads));
+                        let mut hs = Vec::new();
+                        for t in 0..threads {
+                            let (sk, refs, barrier) = (sk.clone(), refs.clone(), barrier.clone());
+                            hs.push(std::thread::spawn(move || {
+                                barrier.wait();
+                                let mut bad = 0i64; let mut first = -1i64;
+                                for k in 0..iters {
+                                    let i = (k + t * 7) % iters;
+                                    let mut sig = vec![0u8; par::SIGNBYTES];
+                                    sg_::signature(&mut sig, &(i as u32).to_le_bytes(), &sk, false);
+                                    if sig != refs[i] { bad += 1; if first < 0 { first = i as i64; } }
+                                }
+                                (bad, first)
+                            }));
+                        }
+                        let mut bad = 0i64; let mut first = -1i64;
+                        for h in hs { let (b, f) = h.join().unwrap(); bad += b; if first < 0 { first = f; } }
+                        vec![oint((threads * iters) as i64), oint(bad), oint(first)]
                     }
                     "draws_seeded" => {
                         let mut pk = vec![0u8; par::PUBLICKEYBYTES]; let mut sk = vec![0u8; par::SECRETKEYBYTES];
